@@ -222,7 +222,12 @@ fn main() {
                 }
                 _ => {
                     shard.rule = "run = writers, readers and churners (add_stream/clone/drop cycles on their own parent stream) running concurrently with stalls inside the writer's stream-list scan and inside the reclamation code; distinct = hash(configuration, deferred frees executed / 16); non-trivial = at least 100 deferred frees (20 under Miri) were executed while writers were scanning, or - for runs with idle handles that never operate - every churn cycle completed".to_string();
-                    churn::run_stress_many(seed, runs, budget, args.flag("small"), args.flag("measure-growth"), &mut shard);
+                    let fl = match args.get("fl") {
+                        Some("broadcast") => Some(api::Flavour::Broadcast),
+                        Some("mpmc") => Some(api::Flavour::Mpmc),
+                        _ => None,
+                    };
+                    churn::run_stress_many(seed, runs, budget, args.flag("small"), args.flag("measure-growth"), fl, &mut shard);
                 }
             }
             write_out(&args, &shard);
